@@ -170,17 +170,17 @@ Definition nonnum_lead (c : byte) : bool :=
   negb (byte_eqb c x6e || byte_eqb c x74 || byte_eqb c x66 || is_dec_digit c ||
         byte_eqb c x2d || byte_eqb c x2b || byte_eqb c x2e).
 
-Definition alts_tail (elem : bytes -> pres obj) (n : nat) (s : bytes) : pres obj :=
+Definition alts_tail (elem : bytes -> pres obj) (cont : bool) (n : nat) (s : bytes) : pres obj :=
   palt (pmap OName (name s)) (fun _ =>
   palt (pmap (fun t => OStr t false) (literal_string n s)) (fun _ =>
   palt (pmap (fun t => OStr t true) (hexadecimal_string s)) (fun _ =>
-  palt (pmap OArr (array_p elem n s)) (fun _ =>
-  pmap ODict (dictionary_p elem n s))))).
+  palt (if cont then pmap OArr (array_p elem n s) else PErr) (fun _ =>
+  if cont then pmap ODict (dictionary_p elem n s) else PErr)))).
 
-Lemma alts_nonnum elem ar n c s :
-  nonnum_lead c = true -> object_alts elem ar n (c :: s) = alts_tail elem n (c :: s).
+Lemma alts_nonnum elem cont ar n c s :
+  nonnum_lead c = true -> object_alts_c elem cont ar n (c :: s) = alts_tail elem cont n (c :: s).
 Proof.
-  intro H. unfold object_alts, alts_tail.
+  intro H. unfold object_alts_c, alts_tail.
   destruct ar; destruct c; try discriminate H; reflexivity.
 Qed.
 
@@ -199,43 +199,43 @@ Proof. intro H. unfold dictionary_p. destruct c; try reflexivity. discriminate H
 Definition no_lead (c : byte) : bool :=
   nonnum_lead c && negb (byte_eqb c x2f) && negb (byte_eqb c x28) && negb (byte_eqb c x3c) && negb (byte_eqb c x5b).
 
-Lemma alts_no_lead elem ar n c s : no_lead c = true -> object_alts elem ar n (c :: s) = PErr.
+Lemma alts_no_lead elem cont ar n c s : no_lead c = true -> object_alts_c elem cont ar n (c :: s) = PErr.
 Proof.
   intro H. unfold no_lead in H. repeat (apply andb_true_iff in H as [H ?]).
   repeat match goal with K : negb _ = true |- _ => apply negb_true_iff in K end.
-  rewrite (alts_nonnum _ _ _ _ _ H). unfold alts_tail.
-  rewrite name_err, literal_err, hex_err, array_err, dict_err by assumption. reflexivity.
+  rewrite (alts_nonnum _ _ _ _ _ _ H). unfold alts_tail.
+  rewrite name_err, literal_err, hex_err, array_err, dict_err by assumption. destruct cont; reflexivity.
 Qed.
 
-Lemma alts_nil elem ar n : object_alts elem ar n [] = PErr.
-Proof. destruct ar; reflexivity. Qed.
+Lemma alts_nil elem cont ar n : object_alts_c elem cont ar n [] = PErr.
+Proof. destruct ar; destruct cont; reflexivity. Qed.
 
 (* ----- the simple kinds ----- *)
-Lemma alts_null elem ar n rest : object_alts elem ar n (bs "null" ++ rest) = POk ONull rest.
+Lemma alts_null elem cont ar n rest : object_alts_c elem cont ar n (bs "null" ++ rest) = POk ONull rest.
 Proof. reflexivity. Qed.
-Lemma alts_true elem ar n rest : object_alts elem ar n (bs "true" ++ rest) = POk (OBool true) rest.
+Lemma alts_true elem cont ar n rest : object_alts_c elem cont ar n (bs "true" ++ rest) = POk (OBool true) rest.
 Proof. reflexivity. Qed.
-Lemma alts_false elem ar n rest : object_alts elem ar n (bs "false" ++ rest) = POk (OBool false) rest.
+Lemma alts_false elem cont ar n rest : object_alts_c elem cont ar n (bs "false" ++ rest) = POk (OBool false) rest.
 Proof. reflexivity. Qed.
 
-Lemma alts_name elem ar n k rest :
-  name_follow rest = true -> object_alts elem ar n (write_name k ++ rest) = POk (OName k) rest.
+Lemma alts_name elem cont ar n k rest :
+  name_follow rest = true -> object_alts_c elem cont ar n (write_name k ++ rest) = POk (OName k) rest.
 Proof.
   intro H. pose proof (name_rt k rest H) as E. unfold write_name in *. cbn [app] in *.
   rewrite alts_nonnum by reflexivity. unfold alts_tail. rewrite E. reflexivity.
 Qed.
 
-Lemma alts_literal elem ar n t rest :
+Lemma alts_literal elem cont ar n t rest :
   (length (write_literal t ++ rest) <= n)%nat ->
-  object_alts elem ar n (write_literal t ++ rest) = POk (OStr t false) rest.
+  object_alts_c elem cont ar n (write_literal t ++ rest) = POk (OStr t false) rest.
 Proof.
   intro H. pose proof (literal_string_rt t rest n H) as E. unfold write_literal in *. cbn [app] in *.
   rewrite alts_nonnum by reflexivity. unfold alts_tail.
   rewrite name_err by reflexivity. rewrite E. reflexivity.
 Qed.
 
-Lemma alts_hex elem ar n t rest :
-  object_alts elem ar n (write_hex t ++ rest) = POk (OStr t true) rest.
+Lemma alts_hex elem cont ar n t rest :
+  object_alts_c elem cont ar n (write_hex t ++ rest) = POk (OStr t true) rest.
 Proof.
   pose proof (hex_string_rt t rest) as E. unfold write_hex in *. cbn [app] in *.
   rewrite alts_nonnum by reflexivity. unfold alts_tail.
@@ -301,18 +301,18 @@ Proof.
 Qed.
 
 (* a number text (integer or real) through the ordered choice *)
-Lemma alts_number elem ar n neg ds fs rest r z :
+Lemma alts_number elem cont ar n neg ds fs rest r z :
   ds <> [] -> forallb is_dec_digit ds = true ->
   num_follow ar rest ->
   (real (real_text neg ds fs ++ rest) = POk r rest \/
    (real (real_text neg ds fs ++ rest) = PErr /\ integer (real_text neg ds fs ++ rest) = POk z rest)) ->
-  object_alts elem ar n (real_text neg ds fs ++ rest) =
+  object_alts_c elem cont ar n (real_text neg ds fs ++ rest) =
   match real (real_text neg ds fs ++ rest) with POk r' _ => POk (OReal r') rest | _ => POk (OInt z) rest end.
 Proof.
   intros Hne Hd [Hf Hrt] Hcase.
   pose proof (reference_text_err neg ds fs rest Hne Hd (digit_or_point_digit _ Hf)) as Href.
   destruct (real_text_lead neg ds fs Hne Hd) as [c [t [E Hc]]].
-  unfold object_alts.
+  unfold object_alts_c.
   assert (null (real_text neg ds fs ++ rest) = PErr) as ->.
   { rewrite E. cbn [app]. apply null_err. destruct Hc as [->|Hc]; [reflexivity|apply (digit_facts c Hc)]. }
   assert (boolean (real_text neg ds fs ++ rest) = PErr) as ->.
@@ -324,14 +324,14 @@ Proof.
   rewrite E2. reflexivity.
 Qed.
 
-Lemma alts_int elem ar n z rest :
+Lemma alts_int elem cont ar n z rest :
   in_i64 z = true -> num_follow ar rest ->
-  object_alts elem ar n (Z_dec z ++ rest) = POk (OInt z) rest.
+  object_alts_c elem cont ar n (Z_dec z ++ rest) = POk (OInt z) rest.
 Proof.
   intros Hz Hf. pose proof (integer_rt z rest Hz (digit_or_point_digit _ (proj1 Hf))) as Ei.
   rewrite Z_dec_text in *.
   pose proof (real_int_err (z <? 0)%Z (N_dec (Z.abs_N z)) rest (N_dec_nonempty _) (N_dec_digits _) (proj1 Hf)) as Er.
-  rewrite (alts_number elem ar n _ _ _ rest [] z (N_dec_nonempty _) (N_dec_digits _) Hf) by (right; split; assumption).
+  rewrite (alts_number elem cont ar n _ _ _ rest [] z (N_dec_nonempty _) (N_dec_digits _) Hf) by (right; split; assumption).
   rewrite Er. reflexivity.
 Qed.
 
@@ -347,15 +347,15 @@ Proof.
   - exists neg, ds, fs. auto.
 Qed.
 
-Lemma alts_real elem ar n r rest :
+Lemma alts_real elem cont ar n r rest :
   real_wf r -> num_follow ar rest ->
-  object_alts elem ar n (write_real r ++ rest) = POk (norm_real r) rest.
+  object_alts_c elem cont ar n (write_real r ++ rest) = POk (norm_real r) rest.
 Proof.
   intros Hw Hf. destruct (write_real_text r Hw) as [neg [ds [fs [E [Hne [Hd _]]]]]].
   destruct (real_rt r rest Hw (proj1 Hf)) as [[r' [En Er]]|[z [En [Er Ei]]]]; rewrite E in *.
-  - rewrite (alts_number elem ar n _ _ _ rest r' 0%Z Hne Hd Hf) by (left; assumption).
+  - rewrite (alts_number elem cont ar n _ _ _ rest r' 0%Z Hne Hd Hf) by (left; assumption).
     rewrite Er, En. reflexivity.
-  - rewrite (alts_number elem ar n _ _ _ rest [] z Hne Hd Hf) by (right; split; assumption).
+  - rewrite (alts_number elem cont ar n _ _ _ rest [] z Hne Hd Hf) by (right; split; assumption).
     rewrite Er, En. reflexivity.
 Qed.
 
@@ -365,13 +365,13 @@ Proof.
   apply obj_lead_tok, digit_lead, Hc.
 Qed.
 
-Lemma alts_ref elem n i g rest :
+Lemma alts_ref elem cont n i g rest :
   i <= u32_max -> g <= u16_max ->
-  object_alts elem true n (write_object (ORef i g) ++ rest) = POk (ORef i g) rest.
+  object_alts_c elem cont true n (write_object (ORef i g) ++ rest) = POk (ORef i g) rest.
 Proof.
   intros Hi Hg. cbn [write_object]. rewrite <- app_assoc. cbn [app]. rewrite <- app_assoc. cbn [app].
   destruct (N_dec_cons i) as [c [t [E Hc]]].
-  unfold object_alts.
+  unfold object_alts_c.
   assert (null (N_dec i ++ x20 :: N_dec g ++ x20 :: x52 :: rest) = PErr) as ->
     by (rewrite E; apply null_err, (digit_facts c Hc)).
   assert (boolean (N_dec i ++ x20 :: N_dec g ++ x20 :: x52 :: rest) = PErr) as ->
@@ -573,9 +573,21 @@ Proof. destruct l as [|x l]; cbn [arr_items write_arr_tail]; [lia|]. rewrite !ap
 Lemma write_object_nonempty o : obj_wf o -> (1 <= length (write_object o))%nat.
 Proof. intro H. destruct (write_object_lead o H) as [c [t [E _]]]. rewrite E. cbn. lia. Qed.
 
+(* container nesting depth: 0 for scalars *)
+Fixpoint nest (o : obj) : nat :=
+  match o with
+  | OArr l => S (fold_right (fun x m => Nat.max (nest x) m) 0%nat l)
+  | ODict d => S (fold_right (fun kv m => Nat.max (nest (snd kv)) m) 0%nat d)
+  | OStream d _ => S (fold_right (fun kv m => Nat.max (nest (snd kv)) m) 0%nat d)
+  | _ => 0%nat
+  end.
+Definition nest_list (l : list obj) : nat := fold_right (fun x m => Nat.max (nest x) m) 0%nat l.
+Definition nest_dict (d : dict) : nat := fold_right (fun kv m => Nat.max (nest (snd kv)) m) 0%nat d.
+
 Section Loops.
   Variable f : nat.
-  Let elem := direct_objects (S f).
+  Variable dp : nat.     (* the depth at which the elements are parsed *)
+  Let elem := direct_objects_at (S f) dp.
 
   (* the property of one element that the loops need *)
   Definition elem_rt (x : obj) : Prop :=
@@ -583,7 +595,7 @@ Section Loops.
                  elem (write_object x ++ rest) = POk (norm_obj x) rest.
 
   Lemma elem_close c s : no_lead c = true -> elem (c :: s) = PErr.
-  Proof. intro H. unfold elem. cbn [direct_objects]. apply alts_no_lead. exact H. Qed.
+  Proof. intro H. unfold elem. cbn [direct_objects_at]. apply alts_no_lead. exact H. Qed.
 
   Lemma many0_arr : forall l rest n,
     Forall elem_rt l -> Forall obj_wf l ->
@@ -669,10 +681,10 @@ Proof.
   - rewrite <- app_assoc. rewrite !map_app in *. exact H.
 Qed.
 
-Lemma dictionary_rt f d rest n :
-  Forall (fun kv => elem_rt f (snd kv)) d -> Forall (fun kv => obj_wf (snd kv)) d -> NoDup (map fst d) ->
+Lemma dictionary_rt f dp d rest n :
+  Forall (fun kv => elem_rt f dp (snd kv)) d -> Forall (fun kv => obj_wf (snd kv)) d -> NoDup (map fst d) ->
   (length (write_object (ODict d) ++ rest) <= S (S f))%nat -> (length (write_object (ODict d) ++ rest) <= S (S n))%nat ->
-  dictionary_p (direct_objects (S f)) n (write_object (ODict d) ++ rest) = POk (norm_dict d) rest.
+  dictionary_p (direct_objects_at (S f) dp) n (write_object (ODict d) ++ rest) = POk (norm_dict d) rest.
 Proof.
   intros He Hw Hnd Hf Hn. rewrite write_dict_eq in *. cbn [app] in *. rewrite <- app_assoc in *. cbn [app length] in *.
   unfold dictionary_p. rewrite (space_tok _ (dict_body_tok d rest)).
@@ -680,17 +692,33 @@ Proof.
   rewrite (fold_set_kv d [] Hnd). reflexivity.
 Qed.
 
+Lemma nest_list_le l dp : (nest_list l <= dp)%nat -> Forall (fun x => (nest x <= dp)%nat) l.
+Proof.
+  induction l as [|x l IH]; intro H; constructor; cbn [nest_list fold_right] in H; [lia|].
+  apply IH. unfold nest_list. lia.
+Qed.
+Lemma nest_dict_le d dp : (nest_dict d <= dp)%nat -> Forall (fun kv => (nest (snd kv) <= dp)%nat) d.
+Proof.
+  induction d as [|x d IH]; intro H; constructor; cbn [nest_dict fold_right] in H; [lia|].
+  apply IH. unfold nest_dict. lia.
+Qed.
+
 (* ---------- the round trip ---------- *)
 
 Definition ref_ok (ar : bool) (o : obj) : Prop :=
   match o with ORef _ _ => ar = true | _ => True end.
 
-Theorem object_rt : forall o ar rest f,
+Lemma ref_ok_true o : ref_ok true o.
+Proof. destruct o; try exact I; reflexivity. Qed.
+
+(* [depth] is the parser's depth argument: the number of container levels still allowed *)
+Theorem object_rt : forall o ar rest f depth,
   obj_wf o -> ref_ok ar o -> follow_ok ar o rest ->
-  (length (write_object o ++ rest) <= f)%nat ->
-  object_alts (direct_objects f) ar f (write_object o ++ rest) = POk (norm_obj o) rest.
+  (length (write_object o ++ rest) <= f)%nat -> (nest o <= depth)%nat ->
+  object_alts_c (direct_objects_at f (pred depth)) (depth_ok depth) ar f (write_object o ++ rest) =
+  POk (norm_obj o) rest.
 Proof.
-  induction o as [|b|z|r|n|s h|l Hl|d Hd|d c Hd|i g] using obj_rt_ind; intros ar rest f Hw Hr Hf Hlen;
+  induction o as [|b|z|r|n|s h|l Hl|d Hd|d c Hd|i g] using obj_rt_ind; intros ar rest f depth Hw Hr Hf Hlen Hdp;
     inversion Hw; subst.
   - apply alts_null.
   - destruct b; [apply alts_true|apply alts_false].
@@ -700,24 +728,30 @@ Proof.
   - destruct h; [apply alts_hex|apply alts_literal; exact Hlen].
   - (* array *)
     destruct f as [|f]; [rewrite write_arr_eq in Hlen; cbn in Hlen; lia|].
-    assert (He : Forall (elem_rt f) l).
-    { clear - Hl H0. induction Hl as [|x l Hx Hl IH]; constructor.
-      - inversion H0; subst. intros rest Hc Hlen. unfold direct_objects; fold direct_objects.
-        apply Hx; [assumption|destruct x; try exact I; reflexivity|apply cont_follow; exact Hc|exact Hlen].
-      - inversion H0; subst. apply IH. assumption. }
-    pose proof (array_rt f l rest (S f) He H0 Hlen ltac:(lia)) as E.
+    cbn [nest] in Hdp. fold (nest_list l) in Hdp.
+    destruct depth as [|dp]; [lia|]. cbn [pred depth_ok].
+    assert (He : Forall (elem_rt f dp) l).
+    { pose proof (nest_list_le l dp ltac:(lia)) as Hn. clear - Hl H0 Hn.
+      induction Hl as [|x l Hx Hl IH]; constructor.
+      - inversion H0; subst. inversion Hn; subst. intros rest Hc Hlen. cbn [direct_objects_at].
+        apply Hx; [assumption|apply ref_ok_true|apply cont_follow; exact Hc|exact Hlen|assumption].
+      - inversion H0; subst. inversion Hn; subst. apply IH; assumption. }
+    pose proof (array_rt f dp l rest (S f) He H0 Hlen ltac:(lia)) as E.
     rewrite write_arr_eq in *. cbn [app] in *.
     rewrite alts_nonnum by reflexivity. unfold alts_tail.
     rewrite name_err, literal_err, hex_err by reflexivity. cbn [pmap palt].
     rewrite E. reflexivity.
   - (* dictionary *)
     destruct f as [|f]; [rewrite write_dict_eq in Hlen; cbn in Hlen; lia|].
-    assert (He : Forall (fun kv => elem_rt f (snd kv)) d).
-    { clear - Hd H1. induction Hd as [|[k x] d Hx Hdd IH]; constructor.
-      - inversion H1; subst. cbn [snd] in *. intros rest Hc Hlen. unfold direct_objects; fold direct_objects.
-        apply Hx; [assumption|destruct x; try exact I; reflexivity|apply cont_follow; exact Hc|exact Hlen].
-      - inversion H1; subst. apply IH. assumption. }
-    pose proof (dictionary_rt f d rest (S f) He H1 H0 ltac:(lia) ltac:(lia)) as E.
+    cbn [nest] in Hdp. fold (nest_dict d) in Hdp.
+    destruct depth as [|dp]; [lia|]. cbn [pred depth_ok].
+    assert (He : Forall (fun kv => elem_rt f dp (snd kv)) d).
+    { pose proof (nest_dict_le d dp ltac:(lia)) as Hn. clear - Hd H1 Hn.
+      induction Hd as [|[k x] d Hx Hdd IH]; constructor.
+      - inversion H1; subst. inversion Hn; subst. cbn [snd] in *. intros rest Hc Hlen. cbn [direct_objects_at].
+        apply Hx; [assumption|apply ref_ok_true|apply cont_follow; exact Hc|exact Hlen|assumption].
+      - inversion H1; subst. inversion Hn; subst. apply IH; assumption. }
+    pose proof (dictionary_rt f dp d rest (S f) He H1 H0 ltac:(lia) ltac:(lia)) as E.
     rewrite write_dict_eq in *. cbn [app] in *.
     rewrite alts_nonnum by reflexivity. unfold alts_tail.
     rewrite name_err, literal_err by reflexivity. cbn [pmap palt].
@@ -729,27 +763,50 @@ Qed.
 
 (* ---------- corollaries for the entry points ---------- *)
 
-Theorem direct_objects_rt o rest f :
-  obj_wf o -> follow_ok true o rest -> (length (write_object o ++ rest) < f)%nat ->
-  direct_objects f (write_object o ++ rest) = POk (norm_obj o) rest.
+Theorem direct_objects_at_rt o rest f depth :
+  obj_wf o -> follow_ok true o rest -> (length (write_object o ++ rest) < f)%nat -> (nest o <= depth)%nat ->
+  direct_objects_at f depth (write_object o ++ rest) = POk (norm_obj o) rest.
 Proof.
-  intros Hw Hf Hlen. destruct f as [|f]; [lia|]. cbn [direct_objects].
-  apply object_rt; [assumption|destruct o; try exact I; reflexivity|assumption|lia].
+  intros Hw Hf Hlen Hd. destruct f as [|f]; [lia|]. cbn [direct_objects_at].
+  apply object_rt; [assumption|apply ref_ok_true|assumption|lia|assumption].
 Qed.
 
+Theorem direct_objects_rt o rest f :
+  obj_wf o -> follow_ok true o rest -> (length (write_object o ++ rest) < f)%nat -> (nest o <= MAX_DEPTH)%nat ->
+  direct_objects f (write_object o ++ rest) = POk (norm_obj o) rest.
+Proof. intros. unfold direct_objects. apply direct_objects_at_rt; assumption. Qed.
+
 Theorem direct_object_rt o rest f :
-  obj_wf o -> follow_ok true o rest -> (length (write_object o ++ rest) < f)%nat ->
+  obj_wf o -> follow_ok true o rest -> (length (write_object o ++ rest) < f)%nat -> (nest o <= MAX_DEPTH)%nat ->
   direct_object f (write_object o ++ rest) = POk (norm_obj o) (space rest).
 Proof. intros. unfold direct_object. rewrite direct_objects_rt by assumption. reflexivity. Qed.
 
 Theorem parse_direct_object_rt o :
-  obj_wf o -> parse_direct_object (write_object o) = Some (norm_obj o).
+  obj_wf o -> (nest o <= MAX_DEPTH)%nat -> parse_direct_object (write_object o) = Some (norm_obj o).
 Proof.
-  intro Hw. unfold parse_direct_object.
+  intros Hw Hd. unfold parse_direct_object.
   pose proof (direct_object_rt o [] (fuel_for (write_object o)) Hw (follow_nil true o)) as E.
-  rewrite app_nil_r in E. rewrite E; [reflexivity|]. unfold fuel_for. lia.
+  rewrite app_nil_r in E. rewrite E; [reflexivity| |assumption]. unfold fuel_for. lia.
 Qed.
 
+(* the standalone dictionary parser (trailer, stream dictionary) *)
+Theorem dictionary_entry_rt d rest f :
+  obj_wf (ODict d) -> (length (write_object (ODict d) ++ rest) < f)%nat -> (nest (ODict d) <= MAX_DEPTH)%nat ->
+  dictionary f (write_object (ODict d) ++ rest) = POk (norm_dict d) rest.
+Proof.
+  intros Hw Hlen Hd. inversion Hw; subst. unfold dictionary. destruct f as [|f]; [lia|].
+  destruct f as [|f]; [rewrite write_dict_eq in Hlen; cbn in Hlen; lia|].
+  cbn [nest] in Hd. fold (nest_dict d) in Hd.
+  destruct MAX_DEPTH as [|dp] eqn:EM; [lia|]. cbn [depth_ok pred].
+  apply dictionary_rt; [|assumption|assumption|lia|lia].
+  pose proof (nest_dict_le d dp ltac:(lia)) as Hn. clear - H1 Hn.
+  induction H1 as [|[k x] d Hx Hdd IH]; constructor.
+  - inversion Hn; subst. cbn [snd] in *. intros rest Hc Hlen. cbn [direct_objects_at].
+    apply object_rt; [assumption|apply ref_ok_true|apply cont_follow; exact Hc|exact Hlen|assumption].
+  - inversion Hn; subst. apply IH; assumption.
+Qed.
+
+(* beyond the limit the parser gives up: nesting deeper than MAX_BRACKET is not read back *)
 (* ---------- the normal form is stable ---------- *)
 
 Lemma norm_real_cases r : real_wf r ->
